@@ -16,6 +16,25 @@ fn check_m<const M: u32>(x: i64, y: i64, d: u64) -> Option<(String, String)> {
         let mut t = a; t += b; v.push(("add_assign", t.inner() as i128, md(x as i128 + y as i128, m)));
         let mut t = a; t -= b; v.push(("sub_assign", t.inner() as i128, md(x as i128 - y as i128, m)));
         let mut t = a; t *= b; v.push(("mul_assign", t.inner() as i128, md(md(x as i128, m) * md(y as i128, m), m)));
+        // reading and writing go through the canonical representative
+        {
+            let text = format!("{} {}", x, y);
+            let mut rd = rlib_io::Reader::new(Box::new(std::io::Cursor::new(text.into_bytes())));
+            let ra: Modular<M> = rd.read();
+            let rb: Modular<M> = rd.read();
+            v.push(("read x", ra.inner() as i128, md(x as i128, m)));
+            v.push(("read y", rb.inner() as i128, md(y as i128, m)));
+            let mut outb: Vec<u8> = Vec::new();
+            {
+                let mut w = rlib_io::Writer::new(Box::new(&mut outb));
+                w.write(&a);
+                w.write_char(' ');
+                w.write(&(a - b));
+            }
+            let want = format!("{} {}", md(x as i128, m), md(x as i128 - y as i128, m));
+            v.push(("written text", if String::from_utf8_lossy(&outb) == want { 0 } else { 1 }, 0));
+            v.push(("Display", if format!("{} {:?}", a, a) == format!("{} {}", md(x as i128, m), md(x as i128, m)) { 0 } else { 1 }, 0));
+        }
         if gcd(md(y as i128, m), m) == 1 {
             v.push(("(x/y)*y", ((a / b) * b).inner() as i128, md(x as i128, m)));
             let mut t = a; t /= b; v.push(("div_assign*y", (t * b).inner() as i128, md(x as i128, m)));
